@@ -491,6 +491,8 @@ class Interp:
                     return self.call_function(fm.mod, fm.node, [obj] + list(args), kw, qn=fm.qn)
                 return self.call_function(fm.mod, fm.node, list(args), kw, qn=fm.qn)
             raise Undecided(f"class attribute call {obj.name}.{name}")
+        if isinstance(obj, Row) and obj._d.get("__super__"):
+            return self.call(self.lib.value_attr(self, obj, name), args, kw)
         if isinstance(obj, Row) and obj._d.get("__class__") in self.prog.classes:
             fm = self.prog.find_method(obj._d["__class__"], name)
             if fm:
